@@ -491,14 +491,16 @@ def replay_decompressor(maxes, block):
         out = io.BytesIO()
         c.compress(io.BytesIO(data), out)
         c.flush(out)
+        seqs = [[m * sc for m in maxes] for sc in (1, 100, 5000)] + [[100, 50, 150000, 77], [10, 10, 10, 60000, 10], [1, 1, 1, 1, 199000]]
         for blk in sorted({block, 64, 4096, 65536}):
-            for scale in (1, 100, 5000):
+            for seq in seqs:
                 d = SevenZipDecompressor(c.coders, c.packsize, c.unpacksizes, None, blocksize=blk)
                 fp = io.BytesIO(out.getvalue())
                 got = b""
                 tried += 1
+                scale = 1
                 try:
-                    for m in maxes:
+                    for m in seq:
                         m = m * scale
                         chunk = d.decompress(fp, m)
                         if len(chunk) > m:
